@@ -139,7 +139,11 @@ class SFTPHandle(ClosingContextManager):
         except IOError as e:
             self.__tell = None
             return SFTPServer.convert_errno(e.errno)
-        if self.__tell is not None:
+        if self.__flags & os.O_APPEND:
+            # the data went to the end of the file, wherever that is now, and
+            # took the file position along: the cached position is void
+            self.__tell = None
+        elif self.__tell is not None:
             self.__tell += len(data)
         return SFTP_OK
 
